@@ -362,8 +362,10 @@ Qed.
 Lemma c_relative : s_relative ms = true.
 Proof.
   unfold s_relative, ms. apply forallb_forall. intros x Hx. apply in_map_iff in Hx as (x0 & <- & Hx0).
-  apply finalize_mem in Hx0. rewrite Forall_forall in Gf. destruct (good_abs _ (Gf _ (proj1 (mem_In _ _) Hx0))) as (r & E).
-  cbn [tar_member m_name]. rewrite E. reflexivity.
+  apply finalize_mem in Hx0. rewrite Forall_forall in Gf. pose proof (Gf _ (proj1 (mem_In _ _) Hx0)) as G.
+  destruct (good_abs _ G) as (r & E). rewrite key_tar.
+  assert (P : fprefix (bs "./") (m_name (tar_member x0)) = true) by (cbn [tar_member m_name]; rewrite E; reflexivity).
+  rewrite P. destruct G as [G|G]; [rewrite G; now destruct (feq (m_name x0) root_path)|rewrite G; now rewrite feq_refl].
 Qed.
 Lemma c_unique : s_unique ms = true.
 Proof.
